@@ -2,7 +2,7 @@
    Section variables of the model (atom, cv, to_py, from_py, czero, atom_truth, hash, atom_eqb) are
    universally quantified in every theorem: the value conversions and the hash are uninterpreted. *)
 From Coq Require Import ZArith List Bool Permutation Sorted.
-From CyVerif Require Import Model.M_Pickle Proof.P_Pickle.
+From CyVerif Require Import Model.M_Pickle Proof.P_Pickle Proof.P_PickleChain.
 Import ListNotations.
 
 (* 1. ROUND TRIP, all layouts (any number of members, any inheritance depth), all values: for an
@@ -112,6 +112,99 @@ Theorem C29_refusal_reason :
   end.
 Proof. exact P_Pickle.decide_refusal. Qed.
 Print Assumptions C29_refusal_reason.
+
+(* 5b. THE BASE-CLASS WALK.  decide_walk is the while-loop of _inject_pickle_methods as written (accumulators
+   all_members / cinit / inherited_reduce over cls = node.entry.type, cls.base_type, ...), parameterised by
+   the scope each lookup consults; sel_cls = cls.scope (the code).  For chains of ANY depth: *)
+Theorem C29_walk_accumulates_all_levels :
+  forall sc sr node h,
+  walk sc sr node h =
+  {| w_members := gather h;
+     w_cinit := existsb (fun k => c_cinit (sc node k)) h;
+     w_reduce := existsb (fun k => c_reduce (sr node k)) h |}.
+Proof. exact P_PickleChain.walk_spec. Qed.
+Print Assumptions C29_walk_accumulates_all_levels.
+
+Theorem C29_walk_is_decide :
+  forall f e h, decide_walk sel_cls sel_cls f e h = decide f e h.
+Proof. exact P_PickleChain.decide_walk_eq. Qed.
+Print Assumptions C29_walk_is_decide.
+
+(* the real methods are injected iff auto_pickle is not False and NO level (the class or a base at any
+   depth) has a __cinit__, a __reduce__/__reduce_ex__, an unconvertible member, or a struct member while
+   the class being compiled is not @auto_pickle(True) *)
+Theorem C29_chain_rule :
+  forall f e c bs, quiet f e ->
+  ((exists ms, decide_walk sel_cls sel_cls f e (c :: bs) = InjectPickle ms) <->
+   (c_auto c <> Some false /\ forall k, In k (c :: bs) -> level_ok f (forced_of c) k)).
+Proof. exact P_PickleChain.chain_rule. Qed.
+Print Assumptions C29_chain_rule.
+
+Theorem C29_cinit_at_any_level_refuses :
+  forall f e c bs k,
+  quiet f e -> In k (c :: bs) -> c_cinit k = true ->
+  existsb c_reduce (c :: bs) = false -> c_auto c <> Some false ->
+  decide_walk sel_cls sel_cls f e (c :: bs) = InjectRaise RCinit [].
+Proof. exact P_PickleChain.cinit_anywhere_refuses. Qed.
+Print Assumptions C29_cinit_at_any_level_refuses.
+
+Theorem C29_unconvertible_member_at_any_level_refuses :
+  forall f e c bs k m,
+  In k (c :: bs) -> In m (c_members k) -> special (m_name m) = false -> non_py f (m_kind m) = true ->
+  forall ms, decide_walk sel_cls sel_cls f e (c :: bs) <> InjectPickle ms.
+Proof. exact P_PickleChain.nonpy_anywhere_refuses. Qed.
+Print Assumptions C29_unconvertible_member_at_any_level_refuses.
+
+(* the own-scope-only variant (lookup of __cinit__ in node.scope at every step) decides, on EVERY chain, as if
+   the bases had no __cinit__; so it injects real methods on every chain whose only obstacle is a base-class
+   __cinit__ - the property-violating behaviour; concrete witnesses for __cinit__ and for __reduce__ *)
+Theorem C29_own_scope_variant_spec :
+  forall f e c bs, decide_walk sel_node sel_cls f e (c :: bs) = decide f e (c :: map clear_cinit bs).
+Proof. exact P_PickleChain.own_scope_variant_spec. Qed.
+Print Assumptions C29_own_scope_variant_spec.
+
+Theorem C29_own_scope_variant_wrong :
+  forall f e c bs,
+  quiet f e -> c_cinit c = false -> existsb c_cinit bs = true ->
+  documented_rule f c (map clear_cinit bs) ->
+  (exists ms, decide_walk sel_node sel_cls f e (c :: bs) = InjectPickle ms) /\
+  decide_walk sel_cls sel_cls f e (c :: bs) = InjectRaise RCinit [].
+Proof. exact P_PickleChain.own_scope_variant_wrong. Qed.
+Print Assumptions C29_own_scope_variant_wrong.
+
+Theorem C29_own_scope_variant_refuted :
+  decide_walk sel_cls sel_cls F1 E0 cinit_chain = InjectRaise RCinit [] /\
+  exists ms, decide_walk sel_node sel_cls F1 E0 cinit_chain = InjectPickle ms /\ ms <> [].
+Proof. exact P_PickleChain.own_scope_variant_refuted. Qed.
+Print Assumptions C29_own_scope_variant_refuted.
+
+Theorem C29_own_scope_reduce_refuted :
+  decide_walk sel_cls sel_cls F1 E0 reduce_chain = NoInject /\
+  exists ms, decide_walk sel_cls sel_node F1 E0 reduce_chain = InjectPickle ms.
+Proof. exact P_PickleChain.own_scope_reduce_refuted. Qed.
+Print Assumptions C29_own_scope_reduce_refuted.
+
+(* 5c. FINDING (unchanged tree): a base class cimported from another module is seen through its .pxd
+   (attributes, no methods); its __cinit__ is invisible to the walk, the subclass gets real pickle methods *)
+Theorem C29_cimported_members_still_collected :
+  forall c bs, all_members (c :: map pxd_view bs) = all_members (c :: bs).
+Proof. exact P_PickleChain.all_members_pxd_view. Qed.
+Print Assumptions C29_cimported_members_still_collected.
+
+Theorem C29_cimported_base_cinit_unseen :
+  forall f e c bs,
+  quiet f e -> existsb c_cinit bs = true ->
+  documented_rule f c (map pxd_view bs) ->
+  (exists ms, decide f e (c :: map pxd_view bs) = InjectPickle ms) /\ ~ documented_rule f c bs.
+Proof. exact P_PickleChain.cimported_cinit_unseen. Qed.
+Print Assumptions C29_cimported_base_cinit_unseen.
+
+Theorem C29_cimported_base_cinit_refuted :
+  decide F1 E0 cinit_chain = InjectRaise RCinit [] /\
+  exists ms, decide F1 E0 [mk_cls 2 [{| m_name := nB; m_kind := KObj |}] None; pxd_view cinit_base] = InjectPickle ms
+             /\ ms <> [].
+Proof. exact P_PickleChain.cimported_cinit_refuted. Qed.
+Print Assumptions C29_cimported_base_cinit_refuted.
 
 (* 6. FINDINGS: the as-is model (all repair flags off) violates the property *)
 Theorem C29_module_name_refuted :
